@@ -45,8 +45,9 @@ class Anchors:
         self.ALL = frozenset(self.enum.values())
         self.ename = {v: k for k, v in self.enum.items()}
         groups = []
+        self.split = None       # array-of-structs layout: G points at one array of a struct holding one monitor and one buffer
         for r in prog.records.values():
-            pm, pb = [], []
+            pm, pb, ps = [], [], []
             for f in r['fields']:
                 t = T(f['t'])
                 if t.get('k') == 'ptr':
@@ -54,9 +55,19 @@ class Anchors:
                     if to.get('k') == 'rec' and to.get('rec') == self.Mq:
                         pm.append(f)
                     elif to.get('k') == 'rec' and to.get('rec') in prog.records and to.get('rec') != r['q']:
-                        pb.append((f, to['rec']))
+                        inner = prog.records[to['rec']]
+                        im = [x for x in inner['fields'] if T(x['t']).get('k') == 'rec' and T(x['t']).get('rec') == self.Mq]
+                        ib = [x for x in inner['fields'] if T(x['t']).get('k') == 'rec' and T(x['t']).get('rec') in prog.records and T(x['t']).get('rec') != self.Mq]
+                        if len(im) == 1 and len(ib) == 1 and len(inner['fields']) == 2:
+                            ps.append((f, im[0], ib[0]))
+                        else:
+                            pb.append((f, to['rec']))
             if pm and pb:
                 groups.append((r, pm, pb))
+            elif ps:
+                f, im, ib = ps[0]
+                self.split = {'field': f['d'][2:], 'ctrl': im['d'][2:], 'buf': ib['d'][2:]}
+                groups.append((r, [f], [(f, T(ib['t'])['rec'])]))
         if len(groups) != 1:
             raise AnalysisBroken('expected exactly one group class holding monitor and buffer arrays, found %d' % len(groups))
         self.G, pm, pb = groups[0]
@@ -134,6 +145,15 @@ class Anchors:
 BG = ('ext', 'group')
 CTRL = ('ext', 'ctrlarr')
 BUFS = ('ext', 'bufarr')
+SLOTS = ('ext', 'slotarr')
+
+
+def split_hook(A):
+    """interpreter option: members of the slot struct are addressed as elements of the parallel arrays CTRL / BUFS"""
+    if not A.split:
+        return None
+    return {'obj': SLOTS, 'map': {A.split['ctrl']: CTRL, A.split['buf']: BUFS}}
+
 FIN = P(('file', 'fin'), ())
 FOUT = P(('file', 'fout'), ())
 TSYM = 'T'
@@ -145,8 +165,11 @@ def initial_state(A, role, ispadding):
     st = interp.State()
     st.sym[TSYM] = (1, 16)
     st.mem[('G:%s::instance' % A.Gq, ())] = P(BG, ())
-    st.mem[(BG, (A.ctrl_field,))] = P(CTRL, (0,))
-    st.mem[(BG, (A.buf_field,))] = P(BUFS, (0,))
+    if A.split:
+        st.mem[(BG, (A.split['field'],))] = P(SLOTS, (0,))
+    else:
+        st.mem[(BG, (A.ctrl_field,))] = P(CTRL, (0,))
+        st.mem[(BG, (A.buf_field,))] = P(BUFS, (0,))
     for f in A.G['fields']:
         t = A.prog.type(f['t'])
         d = f['d'][2:]
@@ -538,6 +561,7 @@ class PipelineAnalysis:
         mdl[A.step['q']] = step_model(A, rec if not quiet else _Null(), counters)
         I = interp.Interp(self.prog, listeners=[rl, wf], models=mdl)
         I.heap_fields = A.heap_fields
+        I.split_fields = split_hook(A)
         st = initial_state(A, 'worker', True)
         st.sym['id'] = (0, 15)
         st.comps['blk'] = False
@@ -561,6 +585,7 @@ class PipelineAnalysis:
         lst.append(chk)
         I = interp.Interp(self.prog, listeners=lst, models=mdl)
         I.heap_fields = A.heap_fields
+        I.split_fields = split_hook(A)
         I.fread_override = partitioned_fread(A, sumv, bufsz)
         I.fgetc_override = fgetc_by_remaining
         st = initial_state(A, 'io', ispadding)
@@ -686,6 +711,7 @@ def _check_cursor(self):
     for rel, mk in (('lt', lambda t, d: L(0, {t: 1, d: -1})), ('eq', lambda t, d: sym(t)), ('gt', lambda t, d: L(0, {t: 1, d: 1}))):
         I = interp.Interp(A.prog, models=dict(models.STD_MODELS))
         I.heap_fields = A.heap_fields
+        I.split_fields = split_hook(A)
         st = interp.State()
         st.sym['t'] = (1 << 21, 1 << 22)
         st.sym['d'] = (1, 1 << 20)
@@ -756,6 +782,7 @@ def _check_unpad(self):
             sizes.append((size, dict(st.sym)))
     I = interp.Interp(A.prog, listeners=[Lst()], models=dict(models.STD_MODELS))
     I.heap_fields = A.heap_fields
+    I.split_fields = split_hook(A)
     st = interp.State()
     st.sym['q'] = (0, bufsz - 1)
     st.sym['t'] = (0, 15)
